@@ -1,6 +1,7 @@
 import FrappyDrive.Util
 import FrappyModel.Spec.C07
 import FrappyModel.Wire.Dispatch
+import FrappyModel.Wire.ErrText
 import FrappyModel.Generated.C07
 /- line-protocol glue for C07 (not part of any theorem) -/
 namespace Frappy.Drive.C07
@@ -98,6 +99,14 @@ def callsOf (T : Tables) (L : Lib Bytes) (lines : List Bytes) : List (Triple Byt
     | .msg t => if t.action = T.helpRequest then none else some t
     | .bad _ => none)
 
+/-- per request line: the number of the dispatcher call it leads to, or null (help, blank, undecodable) -/
+def callIdx (T : Tables) (L : Lib Bytes) : Nat → List Bytes → List Json
+  | _, [] => []
+  | n, l :: ls =>
+    match nextMessage T L l with
+    | .msg t => if t.action = T.helpRequest then Json.null :: callIdx T L n ls else jnat n :: callIdx T L (n + 1) ls
+    | .bad _ => Json.null :: callIdx T L n ls
+
 def tripleJson (t : Triple Bytes) : Json :=
   Json.mkObj [("a", jhex t.action), ("s", jopt jhex t.spec), ("d", jopt jhex t.data)]
 
@@ -170,11 +179,15 @@ def handle (j : Json) : R Json := do
       let r := serveF tables L (scripted script) ⟨n, true⟩ [] 0 chunks
       let one := serveF tables L (scripted script) ⟨n, true⟩ [] 0 [chunks.flatten]
       return Json.mkObj [("outs", jarr (r.outs.map (outJson L))), ("ncalls", jnat r.st), ("done", jnat r.done),
+        ("torn", jopt (outJson L) r.torn), ("running", Json.bool r.sock.running),
+        ("callidx", jarr (callIdx tables L 0 ((feedAll [] chunks).lines.take r.done))),
         ("calls", jarr ((callsOf tables L ((feedAll [] chunks).lines.take r.done)).map tripleJson)),
-        ("same_as_unsegmented", Json.bool ((wire L r.outs == wire L one.outs) && r.done == one.done && r.st == one.st))]
+        ("same_as_unsegmented", Json.bool ((wire L r.outs == wire L one.outs) && r.done == one.done && r.st == one.st
+          && r.torn == one.torn))]
     let r := serve tables L (scripted script) [] 0 chunks
     let one := serve tables L (scripted script) [] 0 [chunks.flatten]
     return Json.mkObj [("outs", jarr (r.outs.map (outJson L))), ("rest", jhex r.buf), ("ncalls", jnat r.st),
+      ("callidx", jarr (callIdx tables L 0 (feedAll [] chunks).lines)),
       ("calls", jarr ((callsOf tables L (feedAll [] chunks).lines).map tripleJson)),
       ("same_as_unsegmented", Json.bool ((wire L r.outs == wire L one.outs) && r.buf == one.buf))]
   | "judge" =>
@@ -189,6 +202,25 @@ def handle (j : Json) : R Json := do
     let stream ← fldHex j "stream"
     let outs ← (← fldArr j "outs").mapM (fun c => do unhex (← c.getStr?))
     return Json.mkObj [("bad", verdictJson (judgeGone tables stream outs))]
+  | "judge_received" =>
+    -- what the peer has received (all bytes that went out, in order), cut at its newlines in Lean
+    let stream ← fldHex j "stream"
+    let received ← fldHex j "received"
+    let flags ← (← fldArr j "flags").mapM (fun e => do
+      match ← arr e with
+      | [a, b] => return (← a.getBool?, ← b.getBool?)
+      | _ => throw "bad flag entry")
+    let got := splitLines received
+    if flags.length != got.lines.length then throw "judge_received: one pair of flags per complete line expected"
+    return Json.mkObj [("bad", verdictJson (judgeReceived tables stream received flags)),
+      ("lines", jnat got.lines.length), ("rest", jhex got.rest)]
+  | "errtext" =>
+    -- the text of error reports: `str(err)` for errors as driver code raises them
+    let errs ← (← fldArr j "errors").mapM (fun e => do
+      let args ← (← fldArr e "args").mapM (fun a => do return (⟨← fldHex a "s", ← fldHex a "r"⟩ : ErrArg))
+      let methods ← (← fldArr e "methods").mapM (fun m => do unhex (← m.getStr?))
+      return (⟨← fldBool e "registered", ← fldHex e "tname", methods, args⟩ : ErrInfo))
+    return Json.mkObj [("texts", jarr (errs.map (fun e => jhex (errText e))))]
   | "judge_events" =>
     let outs ← (← fldArr j "outs").mapM (fun c => do unhex (← c.getStr?))
     let subs ← (← fldArr j "subscribed").mapM (fun c => do unhex (← c.getStr?))
